@@ -140,6 +140,8 @@ enum Status {
     BlockedMutex(usize),
     BlockedFd(i32),
     BlockedSync(u32),
+    /// runnable only when nobody else is (quiescence observer)
+    WaitIdle,
     Done,
 }
 
@@ -222,6 +224,8 @@ struct State {
     driver_depth: u32,
     script_pos: usize,
     script_count: u32,
+    /// self-pipe transfers synchronise: a byte written after X and read before Y orders X before Y
+    pipe_vc: Vc,
 }
 
 pub struct Exec {
@@ -373,6 +377,16 @@ impl State {
                 _ => {}
             }
         }
+        // a quiescence observer runs only when nothing else can
+        let busy = (0..self.nthreads).any(|i| matches!(self.threads[i].status, Status::Runnable | Status::NotStarted));
+        if !busy {
+            for i in 0..self.nthreads {
+                if self.threads[i].status == Status::WaitIdle {
+                    self.threads[i].status = Status::Runnable;
+                    break;
+                }
+            }
+        }
     }
 
     /// Choose who runs next. `me` is the thread at the point (may be no longer runnable).
@@ -522,6 +536,7 @@ impl Exec {
                 driver_depth: 0,
                 script_pos: 0,
                 script_count: 0,
+                pipe_vc: [0; MAX_THREADS],
             }),
             cvs: (0..MAX_THREADS).map(|_| Condvar::new()).collect(),
             driver_cv: Condvar::new(),
@@ -862,6 +877,13 @@ impl Exec {
         self.point_prologue(me, is_wait, kind);
         let mut st = State::lock(self);
         st.rec(me as i32, Item::Point { kind, a });
+        if kind == Kind::PipeWake {
+            let tv = st.threads[me].vc;
+            vc_join(&mut st.pipe_vc, &tv);
+        } else if kind == Kind::PipeDrain && fd_readable(a as i32) {
+            let pv = st.pipe_vc;
+            vc_join(&mut st.threads[me].vc, &pv);
+        }
         if kind == Kind::CellAccess {
             // Unsynchronised memory: every access must happen-after the previous access by
             // another thread, judged by the declared orderings.
@@ -897,6 +919,8 @@ impl Exec {
             if fd_readable(fd) {
                 st.threads[me].status = Status::Runnable;
                 st.rec(me as i32, Item::Point { kind: Kind::BlockReadable, a: fd as usize });
+                let pv = st.pipe_vc;
+                vc_join(&mut st.threads[me].vc, &pv);
                 return;
             }
             st.threads[me].status = Status::BlockedFd(fd);
@@ -1339,6 +1363,54 @@ pub fn sync_wait(x: u32) {
             }
             st.threads[me].status = Status::BlockedSync(x);
         }
+    }
+}
+
+/// Block the calling virtual thread until no other thread can run (all others blocked or done).
+/// Returns a description of who is blocked on what.
+pub fn wait_idle() -> Vec<(usize, String)> {
+    let _h = crate::alloc::Harness::enter();
+    if let Some((e, me)) = vt() {
+        {
+            let mut st = State::lock(&e);
+            st.threads[me].status = Status::WaitIdle;
+        }
+        loop {
+            e.point_prologue(me, true, Kind::Body);
+            let mut st = State::lock(&e);
+            if st.threads[me].status == Status::Runnable {
+                let others: Vec<(usize, String)> = st
+                    .threads
+                    .iter()
+                    .enumerate()
+                    .filter(|(i, t)| *i != me && t.status != Status::Done)
+                    .map(|(i, t)| (i, format!("{:?}", t.status)))
+                    .collect();
+                st.rec(me as i32, Item::Mark { name: "idle", a: others.len() as i64, b: 0 });
+                return others;
+            }
+            st.threads[me].status = Status::WaitIdle;
+        }
+    }
+    vec![]
+}
+
+/// The caller just read a byte from the self-pipe: everything before the matching write
+/// happens-before what follows.
+pub fn pipe_acquire() {
+    let _h = crate::alloc::Harness::enter();
+    if let Some((e, me)) = vt() {
+        let mut st = State::lock(&e);
+        let pv = st.pipe_vc;
+        vc_join(&mut st.threads[me].vc, &pv);
+    }
+}
+
+/// Block the calling virtual thread until `fd` is readable (an async task parked on a waker).
+pub fn block_fd(fd: i32) {
+    let _h = crate::alloc::Harness::enter();
+    if let Some((e, me)) = vt() {
+        e.do_block_readable(me, fd)
     }
 }
 
